@@ -20,7 +20,7 @@ from entity_query_language import symbol, predicate
 ID = "C08"
 LEVEL = "exploration"
 RULE = ("random histories of 6-16 steps over 15 operation kinds (incl. re-entering a query object that is already open and evaluating the(...) / a whole an(...) at the current nesting) with at most 3 live result iterators and nesting depth "
-        "<= 4; an observation (mode, expression-stack depth, three behaviour probes; every third step also a fresh "
+        "<= 4; an observation (mode, expression-stack depth, behaviour probes (constructor, @predicate call incl. a defaulted parameter given positionally, operators on a variable, a generator domain whose producer constructs @symbol objects); every third step also a fresh "
         "thread and an empty Context) after every step, compared with the reference stack machine. Non-trivial: the "
         "history advances, closes, drops or exhausts an iterator while the nesting depth differs from the depth at "
         "which that iterator was created or last advanced. distinct by structural hash of the operation list.")
@@ -45,6 +45,12 @@ def pos(x):
     return x.n > 0
 
 
+@predicate
+def posk(x, k=0):
+    """a parameter with a default, passed positionally, by keyword or not at all"""
+    return x.n > k
+
+
 class Boom(Exception):
     pass
 
@@ -61,7 +67,7 @@ def floors(tier):
     return {"distinct_nontrivial": 800, "observations": 20000, "op:enter_q": 500, "op:enter_r": 500, "op:enter_rq": 300,
             "op:enter_qq": 300, "op:with_query": 300, "op:leave": 1000, "op:raise_leave": 300, "op:mkit": 1000,
             "op:next": 1000, "op:close": 300, "op:drop": 300, "op:exhaust": 300, "op:the_eval": 500, "op:an_list": 500,
-            "op:reenter_open_query": 300, "thread_probes": 3000,
+            "op:reenter_open_query": 300, "thread_probes": 3000, "generator_domain_probes": 300,
             "cls:iterator_op_at_other_depth": 800}
 
 
@@ -142,6 +148,33 @@ def check_case(case, ctx):
         p = pos(bs[0])
         if (rm is None) != (p is True):
             return {"what": "PREDICATE_CALL", "observed": type(p).__name__, "expected_mode": repr(rm)}
+        # outside blocks a decorated function is the function: a defaulted parameter given positionally / by keyword / not
+        pk = [posk(bs[0], 10), posk(bs[0], k=10), posk(bs[0])]
+        if rm is None and pk != [False, False, True]:
+            return {"what": "PREDICATE_CALL_WITH_DEFAULTED_PARAMETER", "observed": repr(pk), "expected": "[False, False, True]"}
+        if rm is not None and any(not isinstance(x_, SymbolicExpression) for x_ in pk):
+            return {"what": "PREDICATE_CALL_WITH_DEFAULTED_PARAMETER", "observed": repr(pk), "expected_mode": repr(rm)}
+        if rm is None and step % 4 == 1:
+            # a lazily produced domain whose producer constructs @symbol objects: whenever let() or the evaluation drives it
+            # outside every block, the producer's constructor calls are ordinary constructor calls
+            ctx.count("generator_domain_probes")
+            made = []
+
+            def produce():
+                for i_ in range(2):
+                    o_ = B(20 + i_)
+                    made.append(o_)
+                    yield o_
+            gv = let(B, produce())
+            with symbolic_mode():
+                gq = an(entity(gv))
+            res = list(gq.evaluate())
+            if [type(o_).__name__ for o_ in made] != ["B", "B"] or [getattr(o_, "n", None) for o_ in res] != [20, 21] or \
+                    any(type(o_) is not B for o_ in res):
+                return {"what": "CONSTRUCTOR_IN_DOMAIN_PRODUCER", "made": [type(o_).__name__ for o_ in made],
+                        "results": [type(o_).__name__ for o_ in res]}
+            if _symbolic_mode.get() is not None:
+                return {"what": "MODE_AFTER_GENERATOR_DOMAIN", "observed": repr(_symbolic_mode.get())}
         v = let(B, bs)   # itself a nested block entered and left
         if _symbolic_mode.get() != rm:
             return {"what": "MODE_AFTER_LET", "observed": repr(_symbolic_mode.get()), "expected": repr(rm)}
